@@ -653,6 +653,30 @@ func c20Node(n *snapNode, st *SuiteStats, viol map[string]*Violation, suite stri
 			}
 		}
 	}
+	// an observer whose system mode was switched on and off again is a plain observer
+	if t.State.GameState != nil {
+		var seen *pt.Table
+		vrt.Run(vrt.Config{MaxSteps: 100000}, func(env *vrt.Env) {
+			o := actor.NewObserverRunner()
+			o.EnabledSystemMode(true)
+			o.EnabledSystemMode(false)
+			o.OnTableStateUpdated(func(tt *pt.Table) { seen = tt })
+			a := newActorOn(&recEngine{now: env.Now}, deepCopy(t), o)
+			a.GetTable().UpdateTableState(deepCopy(t))
+			env.Settle()
+			st.Transitions++
+			st.Execs++
+		})
+		if seen != nil {
+			if why := hiddenOK(seen); why != "" {
+				key := "observer-sees-hidden-cards@system-mode-switched-off"
+				if _, ok := viol[key]; !ok && !hitKnown(key, why) {
+					clause, k := splitKey(key)
+					viol[key] = &Violation{Suite: suite, Clause: clause, Key: k, Detail: fmt.Sprintf("an observer whose system mode was switched on and off again: %s\nnode: %s\nfrom: %s", why, describeNode(t), n.From)}
+				}
+			}
+		}
+	}
 	for _, order := range orders {
 		var v *Viol
 		vrt.Run(vrt.Config{MaxSteps: 100000}, func(env *vrt.Env) {
